@@ -36,35 +36,10 @@ TRUSTED_EXTRA = ["translator harness/translate/options.py (parse_args -> Generat
 
 
 # ---- known findings -----------------------------------------------------------------------------
-def m_refusal_after_mkdir(f):
-    return f["kind"] == "refused-after-write" and f["case"].get("created") and \
-        all(x.endswith("/") for x in f["case"]["created"])
-
-
-def m_empty_value_crash(f):
-    return f["kind"] == "cli-crash" and f["case"].get("exc") == "IndexError" and "_write_cells" in json.dumps(f["case"].get("where"))
-
-
-def m_sqlite_table_name(f):
-    return f["kind"] == "cli-crash" and f["case"].get("exc") == "OperationalError" and \
-        "syntax error" in (f["case"].get("msg") or "") and "sqlite_export" in json.dumps(f["case"].get("where"))
-
-
-def m_name_in_path(f):
-    c = f["case"]
-    if f["kind"] != "cli-crash" or "/" not in json.dumps(c.get("msg")):
-        return False
-    return (c.get("exc") == "FileNotFoundError" and "csv_export" in json.dumps(c.get("where"))) or \
-        (c.get("exc") == "ValueError" and "sheet title" in (c.get("msg") or ""))
-
-
-def m_prefix_path(f):
-    pfx = (f["case"].get("opts") or {}).get("prefix") or ""
-    return f["kind"] == "cli-crash" and "/" in pfx and f["case"].get("exc") in ("OperationalError", "FileNotFoundError")
-
-
-MATCHERS = {"refusal_after_mkdir": m_refusal_after_mkdir, "empty_value_crash": m_empty_value_crash,
-            "sqlite_table_name": m_sqlite_table_name, "name_in_path": m_name_in_path, "prefix_path": m_prefix_path}
+# C12-F1 ... C12-F5 (refusals after mkdir, empty carved value, unquoted SQLite identifiers, '/' in a table name,
+# '/' in the prefix) are fixed in /repo (237449d, 6594c96, 6735748, ccb6063, 430cb54); their minimal inputs stay
+# in corpus/C12 and are replayed on every run, so a regression is reported as a VIOLATION.
+MATCHERS = {}
 
 
 # ---- running --------------------------------------------------------------------------------------
@@ -306,20 +281,23 @@ def check_relations(ctx, results, specs):
             ctx.branch("relation:wal-adds-versions")
 
     # --carve only adds carved rows
-    def carve(r0, rc):
-        a, b = rows_of(r0, "sqlite"), rows_of(rc, "sqlite")
-        for name in sorted(set(a) | set(b)):
-            base = a.get(name, [])
-            withc = b.get(name, [])
-            kept = [x for x in withc if x[0][6] != "Carved"]
-            if sorted(kept) != sorted(base):
-                ctx.oracle_fail("carve-only-adds", "--carve changes non-carved rows", dict(brief(rc, specs[rc["id"]]), entry=name),
-                                impl=len(kept), oracle=len(base))
-            if len(withc) > len(base):
-                ctx.nontrivial.add(f"carve-adds:{rc['id']}:{name}")
+    def carve(fmt):
+        def f(r0, rc):
+            a, b = rows_of(r0, fmt), rows_of(rc, fmt)
+            for name in sorted(set(a) | set(b)):
+                base = a.get(name, [])
+                withc = b.get(name, [])
+                kept = [x for x in withc if x[0][6] != "Carved"]
+                if sorted(kept) != sorted(base):
+                    ctx.oracle_fail("carve-only-adds", f"--carve changes non-carved rows ({fmt})",
+                                    dict(brief(rc, specs[rc["id"]]), entry=name), impl=len(kept), oracle=len(base))
+                if len(withc) > len(base):
+                    ctx.nontrivial.add(f"carve-adds:{rc['id']}:{fmt}:{name}")
+        return f
     for ev in ("plain", "wal"):
-        pair(f"carve-{ev}-0", f"carve-{ev}-c", "carve", carve)
-        pair(f"carve-{ev}-0", f"carve-{ev}-cf", "carve-freelists", carve)
+        pair(f"carve-{ev}-0", f"carve-{ev}-c", "carve", carve("sqlite"))
+        pair(f"carve-{ev}-0", f"carve-{ev}-cf", "carve-freelists", carve("sqlite"))
+    pair("ind-csv", "carve-csv", "carve-csv", carve("csv"))
     pair("carve-plain-0", "carve-plain-sig", "signatures-only",
          same_rows("--signatures alone changes the exported rows", "carve-only-adds"))
 
